@@ -15,6 +15,8 @@ calls the real done callback the way dawgie.db.archive does, _navel_gaze is the
 real method with the metrics lookup stubbed.
 '''
 
+import threading
+
 import pydot
 import twisted.internet.defer
 import twisted.internet.threads
@@ -35,6 +37,10 @@ class Sleeping(Exception):
     '''a poller reached time.sleep: its loop iteration is over'''
 
 
+class Abort(BaseException):
+    '''the explorer abandons this history: unwind the poller thread'''
+
+
 class VThread:
     def __init__(self, tid, fn, args, kwds):
         self.tid = tid
@@ -46,10 +52,49 @@ class VThread:
         self.delivered = False
         self.result = None
         self.kind = getattr(fn, '__name__', 'thread')
+        # pollers are real threads handed a baton: the body is ONE continuous
+        # execution of the real function (locals survive between steps)
+        self.os_thread = None
+        self.go = threading.Semaphore(0)
+        self.yielded = threading.Semaphore(0)
+        self.abort = False
+
+    def start_real(self):
+        def body():
+            _current.vt = self
+            try:
+                self.go.acquire()
+                if self.abort:
+                    return
+                self.result = self.fn(*self.args, **self.kwds)
+            except Abort:
+                return
+            except Exception as e:  # noqa
+                self.result = e
+                self.failed = True
+            finally:
+                self.done = True
+                self.yielded.release()
+        self.os_thread = threading.Thread(target=body, daemon=True)
+        self.done = False
+        self.os_thread.start()
+
+    def step_real(self):
+        self.go.release()
+        self.yielded.acquire()
+
+    def kill(self):
+        if self.os_thread is not None and self.os_thread.is_alive():
+            self.abort = True
+            self.go.release()
+            self.os_thread.join(5)
 
     @property
     def poller(self):
         return self.kind in ('is_crew_done', 'is_doing_done', 'is_todo_done')
+
+
+_current = threading.local()
 
 
 class FakeRequest:
@@ -68,8 +113,9 @@ _installed = {}
 
 
 class FSMWorld:
-    def __init__(self):
+    def __init__(self, real_pollers=False):
         from . import pipeworld
+        self.real_pollers = real_pollers
         pipeworld.install_seams()
         self.threads = []
         self.log = []
@@ -93,6 +139,8 @@ class FSMWorld:
             ww = _installed['world'][0]
             t = VThread(len(ww.threads), fn, a, k)
             ww.threads.append(t)
+            if t.poller and ww.real_pollers:
+                t.start_real()
             return t.d
 
         twisted.internet.threads.deferToThread = deferToThread
@@ -103,7 +151,13 @@ class FSMWorld:
 
             @staticmethod
             def sleep(_s):
-                raise Sleeping()
+                vt = getattr(_current, 'vt', None)
+                if vt is None:
+                    raise Sleeping()
+                vt.yielded.release()      # end of this scheduling quantum
+                vt.go.acquire()
+                if vt.abort:
+                    raise Abort()
 
         state.time = _Time()
         F = state.FSM
@@ -167,6 +221,8 @@ class FSMWorld:
     def reset(self):
         _installed['world'][0] = self
         f = self.fsm
+        for t in self.threads:
+            t.kill()
         self.threads = []
         self.log = []
         self.submissions = []
@@ -249,6 +305,9 @@ class FSMWorld:
 
     def run_thread(self, t):
         '''one scheduling quantum of the body; returns an exception or None'''
+        if t.poller and t.os_thread is not None:
+            t.step_real()
+            return t.result if getattr(t, 'failed', False) else None
         try:
             t.result = t.fn(*t.args, **t.kwds)
             t.done = True
